@@ -109,10 +109,25 @@ def run_tree_impl(case):
         tree = IntervalTree(arr)
     except Exception as e:  # noqa
         return {"build": f"ERR:{type(e).__name__}: {str(e)[:80]}"}
-    guard("query", lambda: [sorted(int(i) for i in r) for r in tree.query(qs)])
-    guard("points", lambda: [sorted(int(i) for i in r) for r in tree.query_points(ps)])
-    guard("in_ivl", lambda: [bool(tuple(q) in tree) for q in qs])
-    guard("in_pt", lambda: [bool(p in tree) for p in ps])
+    def consume(results):
+        """What a caller may do with the answers it was given: read them, then alter them in place (drop the self hit,
+        pop while consuming).  The answers are the caller's; the tree must not be affected."""
+        out = [sorted(int(i) for i in r) for r in results]
+        for r in results:
+            try:
+                if hasattr(r, "clear"):
+                    r.clear()
+                elif hasattr(r, "fill"):
+                    r.fill(-1)
+            except Exception:  # noqa  (an immutable answer is fine)
+                pass
+        return out
+    # every call twice: the second round comes after the caller has altered the answers of the first in place
+    for rnd in ("", "_again"):
+        guard("query" + rnd, lambda: consume(tree.query(qs)))
+        guard("points" + rnd, lambda: consume(tree.query_points(ps)))
+        guard("in_ivl" + rnd, lambda: [bool(tuple(q) in tree) for q in qs])
+        guard("in_pt" + rnd, lambda: [bool(p in tree) for p in ps])
     return obs
 
 
@@ -163,6 +178,13 @@ def gen_match_case(rng, k):
     # file names: plain time stamps, or a user placeholder in front of them / as a sub directory, valued so that the order of
     # the paths is NOT the order of the times (the partners of a primary must still come in time order)
     naming = rng.choice(["plain", "plain", "prefix", "subdir"])
+    # the period open on one side (start=None / end=None: datetime.min / datetime.max) together with a max_interval:
+    # widening overflows on that side only and must leave the other limit alone
+    open_side = rng.choice([None, None, None, "start", "end"]) if mi else None
+    if open_side == "start":
+        start = None
+    elif open_side == "end":
+        end = None
     return {"id": k, "prim": prim, "sec": sec, "mi": mi, "mi_form": form, "start": start, "end": end, "naming": naming}
 
 
@@ -188,7 +210,8 @@ def run_match_impl(case):
                     (d / base).touch()
             tmpl = {"plain": TEMPLATE, "prefix": "{sat}_" + TEMPLATE, "subdir": "{sat}/" + TEMPLATE}[naming]
             sets.append(FileSet(str(d / tmpl), name=name))
-        start, end = T0 + dt.timedelta(seconds=case["start"]), T0 + dt.timedelta(seconds=case["end"])
+        start = None if case["start"] is None else T0 + dt.timedelta(seconds=case["start"])
+        end = None if case["end"] is None else T0 + dt.timedelta(seconds=case["end"])
         try:
             mi = case["mi"]
             if mi and case.get("mi_form") == "timedelta":
@@ -214,7 +237,9 @@ def found(files, start, end):
 
 def match_expr(case):
     mi = case["mi"] or 0
-    start, end = case["start"] - mi, case["end"] + mi
+    BIG = 10 ** 15                      # beyond every file of the harness: the open side of a period
+    start = -BIG if case["start"] is None else case["start"] - mi
+    end = BIG if case["end"] is None else case["end"] + mi
     prim, sec = found(case["prim"], start, end), found(case["sec"], start, end)
     p = coq_list([f"({zlit(a)}, {zlit(b)})" for a, b in prim])
     s = coq_list([f"({zlit(a)}, {zlit(b)})" for a, b in sec])
@@ -250,7 +275,11 @@ def check_tree_cases(ctx, cases):
             ctx.fail("failing-input", f"IntervalTree(...) raised {o['build']}", case=c, impl=o,
                      signature="tree-build-error")
             continue
-        for key in ("query", "points", "in_ivl", "in_pt"):
+        for key in ("query", "points", "in_ivl", "in_pt", "query_again", "points_again", "in_ivl_again", "in_pt_again"):
+            base = key.replace("_again", "")
+            if key.endswith("_again"):
+                expect[key] = expect[base]
+                names[key] = names[base] + " (asked again after the caller altered the first answers in place)"
             if o[key] != expect[key]:
                 kind = "failing-input" if wf else "correspondence"
                 ctx.fail(kind, f"{names[key]} returned {o[key]} but exactly {expect[key]} overlap "
